@@ -6,6 +6,7 @@ CONSTANTS
   Nesting = FALSE
   TaskAllow = TRUE
   AtomicLaunch = TRUE
+  ErrFirst = TRUE
   HookKinds = {"none", "ok", "fail"}
 SPECIFICATION Spec
 INVARIANTS CommandsAfterDependencies StopsAtFailure FinalOK RunOnlyWhileStageRunning UpBeforeUse DownAfterAll OneUpAtATime NothingRunsAtReturn NoDoubleLaunch
